@@ -198,7 +198,10 @@ func runC12(cfg *runCfg) error {
 	}
 	// concurrent bursts
 	nb := 48
-	if cfg.Tier == "thorough" {
+	if n/5 > nb {
+		nb = n / 5 // the search pass after a broken obligation asks for more cases: more bursts
+	}
+	if cfg.Tier == "thorough" && nb < 400 {
 		nb = 400
 	}
 	if cfg.Replay != "" {
